@@ -307,6 +307,23 @@ func actProtect(e *Env, a J) J {
 			obs["oracle"] = skOracles(o, gb(a, "role"), wire)
 		}
 	}
+	// protected message objects the caller still holds stay what they were while later messages are protected (C20)
+	pheld, _ := e.objs["protheld"].([]*protHeld)
+	same := true
+	for _, ph := range pheld {
+		if !eqJ(projChain(ph.m.Payloads), ph.snap) || !eqJ(ph.snap, projChain(ph.m.Payloads)) {
+			same = false
+			ph.snap = projChain(ph.m.Payloads)
+		}
+	}
+	obs["protheld"] = same
+	if err == nil && o != nil {
+		pheld = append(pheld, &protHeld{m: m, snap: projChain(m.Payloads)})
+		if len(pheld) > 64 {
+			pheld = pheld[len(pheld)-64:]
+		}
+		e.objs["protheld"] = pheld
+	}
 	hdrAfter := J{}
 	projHeader(m.IKEHeader, hdrAfter)
 	obs["srchdr"] = hdrAfter
@@ -316,6 +333,11 @@ func actProtect(e *Env, a J) J {
 		obs["held"] = projChain(held)
 	}
 	return obs
+}
+
+type protHeld struct {
+	m    *message.IKEMessage
+	snap any
 }
 
 func actUnprotect(e *Env, a J) J {
@@ -356,7 +378,7 @@ func actUnprotect(e *Env, a J) J {
 		// "whether or not the receiver pre-parsed the header": the header object may have been parsed from the 28 header
 		// octets alone, or from a receive buffer the caller has reused since -- the datagram is the first argument
 		if used == "pre" {
-			for _, how := range []string{"hdronly", "stale"} {
+			for _, how := range []string{"hdronly", "stale", "reuse"} {
 				var src []byte
 				if how == "hdronly" {
 					src = append([]byte{}, b[:28]...)
@@ -364,6 +386,9 @@ func actUnprotect(e *Env, a J) J {
 					src = append([]byte{}, b...)
 				}
 				h2, perr := message.ParseHeader(src)
+				if how == "reuse" { // the very header object the first call was given, used for the same datagram again
+					h2, perr = hdr, nil
+				}
 				if perr != nil {
 					continue
 				}
